@@ -119,6 +119,13 @@ def run_case(case, ctx):
         'client': gen.client_plan(case['pseed'], list(case['opts']) + ['-c', '-p', '2222', '-t', '4'], profile(case, False, 'client'), port=2222),
         'json': gen.server_plan(case['pseed'], ['-j', '--skip-rate-test', '-t', '2', 'srv.example:2222'], profile(case, False, 'server'), port=2222),
     }
+    if dbname is None:
+        # the same unknown name in a second category and twice in its own list: every occurrence must be rated alike
+        other = {'kex': 'key', 'key': 'enc', 'enc': 'mac', 'mac': 'enc'}[cat]
+        ptwice = profile(case, False, 'server')
+        ptwice[other] = ptwice[other] + [name]
+        ptwice[cat] = ptwice[cat] + [name]
+        plans['twice'] = gen.server_plan(case['pseed'], list(case['opts']) + ['--skip-rate-test', '-t', '2', 'srv.example:2222'], ptwice, port=2222)
     pdup = profile(case, False, 'server')
     tgt = 'kex' if cat == 'kex' else cat
     pdup[tgt] = pdup[tgt][:1] + [name] + pdup[tgt][1:] if name not in pdup[tgt][:1] else pdup[tgt] + [name]
@@ -158,6 +165,13 @@ def run_case(case, ctx):
                 out.append(viol('C03 audit failed in the %s view (status %s)' % (vname, rec['status']), rec['stdout'][-500:]))
                 continue
             notes, tr = notes_text(rec['stdout'], cat, name, verbose)
+            if vname == 'twice':
+                other = {'kex': 'key', 'key': 'enc', 'enc': 'mac', 'mac': 'enc'}[cat]
+                occ = [e for e in tr.algs[cat] if e['name'] == name] + [e for e in tr.algs[other] if e['name'] == name]
+                if len(occ) != 3:
+                    out.append(viol('C03 an unknown name listed several times is not rated at every occurrence', 'cat=%s name=%s occurrences shown %d of 3' % (cat, name, len(occ))))
+                elif any(sorted(e['notes']) != sorted(occ[0]['notes']) for e in occ):
+                    out.append(viol('C03 occurrences of the same unknown name are rated differently', repr([e['notes'] for e in occ])))
             if notes is None:
                 out.append(viol('C03 name missing from the %s view' % vname, 'cat=%s name=%s' % (cat, name)))
                 continue
